@@ -81,9 +81,9 @@ theorem finish_seq_unchanged (s : State) (st : RunSt) (h : String) (f : Option F
     · rfl
     · split <;> rfl
 
-theorem retry_ending (strict : Bool) (op : Op) (f : Option Fault) (s : State) (st : RunSt)
+theorem retry_ending (strict : Bool) (op : Op) (f : Option Fault) (cf : Bool) (s : State) (st : RunSt)
     (hst : SeqLe s.seq st.seq) :
-    Ending strict s op (retry strict op f s st) := by
+    Ending strict s op (retry strict op f cf s st) := by
   unfold retry
   split
   · exact .unchanged rfl hst (Or.inl rfl)
@@ -99,7 +99,7 @@ theorem retry_ending (strict : Bool) (op : Op) (f : Option Fault) (s : State) (s
       have hseq := run_seq op.now "t2" f (runLog strict op.kind op.ik op.ihash op.sv 2)
         { db := s.db, seq := st.seq, n := st.n + 1, trace := st.trace ++ ["root BeginTX"] }
       rw [heq] at hseq
-      rcases finish_cases s st1 "t2" f false op.dry log with h | h
+      rcases finish_cases s st1 "t2" f cf op.dry log with h | h
       · refine .unchanged h.1 ?_ (h.2.elim Or.inl (fun d => Or.inr (Or.inr d)))
         rw [finish_seq_unchanged _ _ _ _ _ _ _ h.1]
         exact SeqLe.trans hst hseq
@@ -136,7 +136,7 @@ theorem forgeLog_ending (strict : Bool) (op : Op) (f : Option Fault) (cf : Bool)
         have hseq := run_seq op.now "t1" f (runLog strict op.kind op.ik op.ihash op.sv 1) st1
         rw [heq2] at hseq
         split
-        · exact retry_ending strict op f s _ (SeqLe.trans h1 hseq)
+        · exact retry_ending strict op f cf s _ (SeqLe.trans h1 hseq)
         · refine .unchanged (failedAttempt_unchanged ..) ?_ (Or.inl (failedAttempt_isError ..))
           rw [failedAttempt_seq]; exact SeqLe.trans h1 hseq
       · rename_i log st2 heq2
